@@ -48,6 +48,11 @@ def configs(tier, seed):
         # a real second Queue as bounce queue, built (and possibly not started) before the main queue
         cfgs.append(dict(backend=b, backoff='r0x2', n=2, messages=1, d=1, dd=3, menu=MENU, bounce_queue='separate-real'))
     cfgs.append(dict(backend='dict', backoff='r0x2', n=2, messages=1, d=1, dd=3, menu=MENU, bounce_queue='separate-real-started'))
+    # result mappings built in another order than the envelope's recipient list; reply texts and sender outside ASCII
+    for b in ('dict', 'disk'):
+        cfgs.append(dict(backend=b, backoff='r0x2', n=3, messages=1, d=0, dd=2, menu=dict(MENU, reversed_maps=True, boom=False), body8=True))
+        cfgs.append(dict(backend=b, backoff='never', n=2, messages=1, d=0, dd=3, menu=dict(MENU, reversed_maps=True)))
+        cfgs.append(dict(backend=b, backoff='r0x2', n=2, messages=1, d=0, dd=3, menu=MENU, unicode_replies=True, senders={'0': 's\u00e9nder@x'}, body8=True))
     # the same id reported twice (start-up load + wait() announcement, as a shared store does after a restart) while
     # the storage read of the first report is still in flight: still one attempt, one bounce
     cfgs.append(dict(backend='dict', backoff='never', n=2, messages=0, prestored=1, harness_wait=True, slow_ops=['get'], d=3, dd=2, menu=MENU,
@@ -126,8 +131,9 @@ def judge(cfg, qw):
         total_groups += len(groups)
         mine = [(i, b) for i, b in enumerate(qw.bounces) if b.get('sender') == led['sender'] and set(b['rcpts']) <= set(led['original'])
                 and not b.get('foreign')]
-        exp = sorted((tuple(r), g[2], g[3]) for g, r in groups.items())
-        got = sorted((tuple(b['rcpts']), b['code'], b['message']) for i, b in mine)
+        # the property names the set of recipients of a group, not their order (a relay may answer in any order)
+        exp = sorted((tuple(sorted(r)), g[2], g[3]) for g, r in groups.items())
+        got = sorted((tuple(sorted(b['rcpts'])), b['code'], b['message']) for i, b in mine)
         if exp != got:
             kind = 'bounce-grouping'
             if len(got) > len(exp):
